@@ -168,6 +168,10 @@ func runC16(res *result) {
 			cs.AddedMW = prefix(l, "ad-")
 			cs.ProcessorMW = []mwSpec{{ID: "pr-obs", Behave: "observe"}}
 			e.serverChain = append(append([]mwSpec{}, cs.ProcessorMW...), cs.AddedMW...)
+		case "added-only":
+			// NewF<Service>Processor(handler) with no constructor middleware, AddMiddleware afterwards
+			cs.AddedMW = prefix(l, "ad-")
+			e.serverChain = cs.AddedMW
 		}
 		e.desc = fmt.Sprintf("%s.%s middleware at %s: %s (handler fails: %v)", svc, wire, point, describeList(l), fails)
 		if twin {
@@ -177,7 +181,7 @@ func runC16(res *result) {
 		exps = append(exps, e)
 	}
 	for _, l := range lists {
-		for _, point := range []string{"provider", "client", "processor", "added"} {
+		for _, point := range []string{"provider", "client", "processor", "added", "added-only"} {
 			add(point, l, "Echo", "echo", false, "Svc")
 			hasRE := false
 			for _, m := range l {
